@@ -84,9 +84,31 @@ cos = _mathfun_real(math.cos, cmath.cos)
 sin = _mathfun_real(math.sin, cmath.sin)
 tan = _mathfun_real(math.tan, cmath.tan)
 
-acos = _mathfun(math.acos, cmath.acos)
-asin = _mathfun(math.asin, cmath.asin)
-atan = _mathfun_real(math.atan, cmath.atan)
+# On the branch cuts mpmath has no signed zeros and uses counter-clockwise
+# continuity: asin and acos are continuous from below on (1, inf), atan is
+# continuous from the left on (-i inf, -i). cmath takes the other side there
+# for a +0.0 component, so mirror its result.
+def _acos_complex(z):
+    v = cmath.acos(z)
+    if z.imag == 0 and z.real > 1:
+        v = complex(v.real, abs(v.imag))
+    return v
+
+def _asin_complex(z):
+    v = cmath.asin(z)
+    if z.imag == 0 and z.real > 1:
+        v = complex(v.real, -abs(v.imag))
+    return v
+
+def _atan_complex(z):
+    v = cmath.atan(z)
+    if z.real == 0 and z.imag < -1:
+        v = complex(-abs(v.real), v.imag)
+    return v
+
+acos = _mathfun(math.acos, _acos_complex)
+asin = _mathfun(math.asin, _asin_complex)
+atan = _mathfun_real(math.atan, _atan_complex)
 
 cosh = _mathfun_real(math.cosh, cmath.cosh)
 sinh = _mathfun_real(math.sinh, cmath.sinh)
